@@ -440,7 +440,7 @@ def gen_call(rnd, edge=False):
     if not case.get("multiline") and case["values"] and rnd.random() < 0.06:
         # quoted text with backslashes inside (Windows paths, escaped quotes): returned as Tor sent it
         q = rnd.choice(['"', "'"])
-        body = rnd.choice(["C:\\tor\\new\\relay", "a\\tb", "x\\\\y", "say \\" + q + "hi\\" + q, "\\101\\x41", "end\\"])
+        body = rnd.choice(['"x y"', "'x y'", '""', "''", '"a=b"', "C:\\tor\\new\\relay", "a\\tb", "x\\\\y", "say \\" + q + "hi\\" + q, "\\101\\x41", "end\\"])
         case["values"][rnd.randrange(len(case["values"]))] = q + body + q
     return case
 
